@@ -138,6 +138,12 @@ def o_independent(inp):
     orig = P.make_seq(init)
     if inp.get("both_fresh"):
         orig.refresh()
+    if inp.get("halved"):
+        # an original a public call left with fractional ticks (scale by 1/2 without the re-quantisation): still an original
+        try:
+            orig.scale(0.5, quantise_afterwards=False)
+        except Exception:
+            return [("~skip:derivation-raises", "")]
     fails = []
     try:
         derived, keep = derive(route, orig, inp.get("cuts", [24]))
@@ -265,6 +271,9 @@ def generate(ctx):
         ctx.count("route:" + route)
         ctx.count("side:" + side)
         ctx.check("independent", inp)
+        if route in ("copy", "split") and i % 3 == 0:
+            ctx.count("original-with-fractional-ticks")
+            ctx.check("independent", dict(inp, halved=True))
         if route == "copy":
             ctx.corr("seq", P.op_seq(init, [("copy",), ("readAbs",), ("readRel",)]))
         elif route == "split":
